@@ -9,8 +9,10 @@ package main
 
 import (
 	"bytes"
+	"crypto/elliptic"
 	"crypto/x509"
 	"crypto/x509/pkix"
+	"encoding/asn1"
 	"encoding/pem"
 	"fmt"
 	"math/big"
@@ -348,8 +350,124 @@ func runCronConc(ctx *core.Ctx, in input) {
 	emit(ctx, in, "C", "", o, "cronconc/"+o.name(), false, nil)
 }
 
+// sec1 is the ASN.1 structure of an "EC PRIVATE KEY" (RFC 5915)
+type sec1 struct {
+	Version       int
+	PrivateKey    []byte
+	NamedCurveOID asn1.ObjectIdentifier `asn1:"optional,explicit,tag:0"`
+	PublicKey     asn1.BitString        `asn1:"optional,explicit,tag:1"`
+}
+
+func leftPad(b []byte, n int) []byte {
+	if len(b) >= n {
+		return b
+	}
+	return append(make([]byte, n-len(b)), b...)
+}
+
+// Key material of EVERY over- and under-length: private scalars and coordinates of the NIST
+// curves (values around 0, the group order and the byte-size boundary; lengths 0..size+3, with
+// and without leading zero bytes; coordinates off the curve / >= p), OKP "x" and "d" of the
+// lengths around 32 / 56 / 64 for every OKP curve name — as JWK through ParseKey and every key
+// operation, through SerializeKey with its model, and as SEC1 / PKCS#8 PEM where the scalar is a
+// free-length octet string.
+func genKeyLengths(ctx *core.Ctx, run func(input)) {
+	r := ctx.R
+	type cv struct {
+		name string
+		c    elliptic.Curve
+		oid  asn1.ObjectIdentifier
+	}
+	curves := []cv{{"P-256", elliptic.P256(), asn1.ObjectIdentifier{1, 2, 840, 10045, 3, 1, 7}}, {"P-384", elliptic.P384(), asn1.ObjectIdentifier{1, 3, 132, 0, 34}},
+		{"P-521", elliptic.P521(), asn1.ObjectIdentifier{1, 3, 132, 0, 35}}}
+	one := big.NewInt(1)
+	for _, c := range curves {
+		sz := (c.c.Params().BitSize + 7) / 8
+		N, P := c.c.Params().N, c.c.Params().P
+		good := new(big.Int).SetBytes(fixedScalar(sz, 40))
+		gx, gy := c.c.ScalarBaseMult(good.Bytes()) //nolint:staticcheck
+		lim := new(big.Int).Lsh(one, uint(8*sz))
+		ds := map[string][]byte{"good": leftPad(good.Bytes(), sz), "zero": make([]byte, sz), "one": leftPad([]byte{1}, sz), "N-1": leftPad(new(big.Int).Sub(N, one).Bytes(), sz),
+			"N": leftPad(N.Bytes(), sz), "N+1": leftPad(new(big.Int).Add(N, one).Bytes(), sz), "max": leftPad(new(big.Int).Sub(lim, one).Bytes(), sz), "2^8size": lim.Bytes(),
+			"good-stripped": good.Bytes(), "good+zero": append([]byte{0}, leftPad(good.Bytes(), sz)...), "good+zeros": append(make([]byte, 3), leftPad(good.Bytes(), sz)...)}
+		for l := 0; l <= sz+3; l++ { // every byte length: leading byte non-zero
+			d := r.Bytes(l)
+			if l > 0 {
+				d[0] |= 1
+			}
+			ds[fmt.Sprintf("len%d", l)] = d
+		}
+		ds["len200"] = append([]byte{0x7f}, r.Bytes(199)...)
+		xs := map[string][2][]byte{"good": {leftPad(gx.Bytes(), sz), leftPad(gy.Bytes(), sz)}}
+		for _, dn := range sortedKeys(ds) {
+			j := fmt.Sprintf(`{"kty":"EC","crv":"%s","x":"%s","y":"%s","d":"%s"}`, c.name, b64u(xs["good"][0]), b64u(xs["good"][1]), b64u(ds[dn]))
+			run(input{Kind: "serialize", Shape: "jwk", Data: []byte(j)})
+			run(input{Kind: "parsekey", Shape: "ec-d-" + c.name, Data: []byte(j), Which: 1})
+			// the same scalar as SEC1 and PKCS#8 PEM
+			pub := elliptic.Marshal(c.c, gx, gy) //nolint:staticcheck
+			if der, err := asn1.Marshal(sec1{Version: 1, PrivateKey: ds[dn], NamedCurveOID: c.oid, PublicKey: asn1.BitString{Bytes: pub, BitLength: 8 * len(pub)}}); err == nil {
+				doc := pemBlock("EC PRIVATE KEY", der)
+				run(input{Kind: "pemkey", Shape: "sec1-d-" + c.name, Data: doc})
+				run(input{Kind: "parsekey", Shape: "sec1-d-" + c.name, Data: doc, Which: 2})
+				if inner, err := asn1.Marshal(sec1{Version: 1, PrivateKey: ds[dn], PublicKey: asn1.BitString{Bytes: pub, BitLength: 8 * len(pub)}}); err == nil {
+					type algID struct {
+						Algorithm  asn1.ObjectIdentifier
+						Parameters asn1.ObjectIdentifier
+					}
+					type p8 struct {
+						Version    int
+						Algo       algID
+						PrivateKey []byte
+					}
+					if der8, err := asn1.Marshal(p8{Algo: algID{asn1.ObjectIdentifier{1, 2, 840, 10045, 2, 1}, c.oid}, PrivateKey: inner}); err == nil {
+						doc8 := pemBlock("PRIVATE KEY", der8)
+						run(input{Kind: "pemkey", Shape: "pkcs8-d-" + c.name, Data: doc8})
+						run(input{Kind: "parsekey", Shape: "pkcs8-d-" + c.name, Data: doc8, Which: 2})
+					}
+				}
+			}
+		}
+		// coordinates: over- / under-length, off the curve, zero, >= p — public and private
+		coords := map[string][2][]byte{"stripped": {gx.Bytes(), gy.Bytes()}, "x+zero": {append([]byte{0}, leftPad(gx.Bytes(), sz)...), leftPad(gy.Bytes(), sz)},
+			"x+one": {append([]byte{1}, leftPad(gx.Bytes(), sz)...), leftPad(gy.Bytes(), sz)}, "y-short": {leftPad(gx.Bytes(), sz), leftPad(gy.Bytes(), sz)[1:]},
+			"off-curve": {leftPad(gx.Bytes(), sz), leftPad(gx.Bytes(), sz)}, "zero": {make([]byte, sz), make([]byte, sz)}, "empty": {{}, {}}, "one-byte": {{1}, {2}},
+			"x=p": {leftPad(P.Bytes(), sz), leftPad(gy.Bytes(), sz)}, "x+p": {new(big.Int).Add(gx, P).Bytes(), leftPad(gy.Bytes(), sz)}, "huge": {r.Bytes(200), r.Bytes(200)},
+			"y-negated": {leftPad(gx.Bytes(), sz), leftPad(new(big.Int).Sub(P, gy).Bytes(), sz)}}
+		for _, cn := range sortedKeys2(coords) {
+			for _, d := range []string{"", `,"d":"` + b64u(ds["good"]) + `"`, `,"d":"` + b64u(ds[fmt.Sprintf("len%d", sz+1)]) + `"`} {
+				j := fmt.Sprintf(`{"kty":"EC","crv":"%s","x":"%s","y":"%s"%s}`, c.name, b64u(coords[cn][0]), b64u(coords[cn][1]), d)
+				run(input{Kind: "serialize", Shape: "jwk", Data: []byte(j)})
+				run(input{Kind: "parsekey", Shape: "ec-xy-" + c.name, Data: []byte(j), Which: 1})
+			}
+		}
+	}
+	// OKP: every curve name x lengths around the valid ones
+	for _, crv := range []string{"Ed25519", "X25519", "Ed448", "X448"} {
+		for _, xl := range []int{0, 1, 31, 32, 33, 56, 57, 64} {
+			x := b64u(r.Bytes(xl))
+			run(input{Kind: "serialize", Shape: "jwk", Data: []byte(`{"kty":"OKP","crv":"` + crv + `","x":"` + x + `"}`)})
+			run(input{Kind: "eddsa", Shape: "jwk", Data: []byte(`{"kty":"OKP","crv":"` + crv + `","x":"` + x + `"}`)})
+			for _, dl := range []int{0, 1, 31, 32, 33, 56, 57, 63, 64, 65} {
+				j := []byte(`{"kty":"OKP","crv":"` + crv + `","x":"` + x + `","d":"` + b64u(r.Bytes(dl)) + `"}`)
+				run(input{Kind: "serialize", Shape: "jwk", Data: j})
+				run(input{Kind: "parsekey", Shape: "okp-len-" + crv, Data: j, Which: 1})
+			}
+		}
+	}
+}
+
+func sortedKeys2(m map[string][2][]byte) []string {
+	ks := make([]string, 0, len(m))
+	for k := range m {
+		ks = append(ks, k)
+	}
+	sortStrings(ks)
+	return ks
+}
+
 func genStructured(ctx *core.Ctx) {
 	run := func(in input) { _ = runInput(ctx, in) }
+	genKeyLengths(ctx, run)
 	genPEMBundles(ctx, run)
 	genJWKMembers(ctx, run)
 	genEncStructured(ctx, run)
